@@ -82,6 +82,20 @@ pub fn run(ctx: &Ctx) {
         }
     });
 
+    // a valid signature longer than 65535 bytes (listed known finding siglen>65535): always exercised
+    ctx.single("long_valid_signature", 0u8, |_| {
+        let h = HashId::Sha256_256;
+        let m = Model::with_overrides(h, &ov);
+        let levels = vec![(1u32, 2u32); 8];
+        let seed = gen::expand(0x51, 32);
+        let sig = hss::sign(&m, &levels, &seed, 3, b"long");
+        let pk = hss::public_key(&m, &levels, &seed);
+        match differential(&m, h, b"long", &sig, &pk, "unmutated") {
+            Ok(true) => pass("long-valid-accepted", true),
+            Ok(false) => fail("harness-bug", "model rejects its own signature"),
+            Err((k, e)) => fail(k, e),
+        }
+    });
     let cases = ctx.tier.pick(100_000u32, 1_500_000u32);
     ctx.random("mutations", &wire::mut_case, cases, Opts { shrink_iters: 300, ..Opts::default() }, |c: &MutCase| {
         let (h, t, class, changed) = wire::materialise(pool, c);
